@@ -24,8 +24,8 @@
                   ModifyForeignKey, AddCheck, DropCheck, ModifyCheck, Add/Drop/ModifyPrimaryKey,
                   AddAttr / ModifyAttr of a table comment
     Not modelled: keywords, plain identifiers (columns, constraint names, new names), literals
-    (the sequence name inside nextval('...') is a literal); serial -> other type changes,
-    generated columns, identity attributes; statement ORDER between changes
+    (round 5: the sequence reference inside nextval('...') is [RLit]; serial -> other type
+    changes, inspected SequenceName are modelled); generated columns; identity attributes write no reference; statement ORDER between changes
     (DetachCycles / SortChanges are M-SORT): statements are compared as a multiset. *)
 From Coq Require Import List NArith Bool.
 From Atlas Require Import Base.Bytes Qual.Builder.
@@ -42,8 +42,13 @@ Inductive ref :=
 | RPrefixedCol (ns : option bytes) (t c : bytes) (* state.schemaPrefix(ns) + %q.%q (OWNED BY) *)
 | RBare (n : bytes)                              (* Builder.Ident of an EXISTING object: no qualifying call
                                                     (no statement form uses it: RefSkeletonProofs) *)
-| RNew (n : bytes).                              (* Builder.Ident of a NEW name (ALTER TYPE ... RENAME TO n):
+| RNew (n : bytes)                               (* Builder.Ident of a NEW name (ALTER TYPE ... RENAME TO n):
                                                     a definition, bare by SQL syntax, not a reference *)
+| RRaw (n : bytes)                               (* round 5: a type name written RAW -- FormatType's text through
+                                                    Builder.P: no quoting, no qualifying call (alterType, the
+                                                    "sequence was dropped" arm: serial -> enum) *)
+| RLit (ns : option bytes) (n : bytes).          (* round 5: state.schemaPrefix(ns) + %q INSIDE a string literal:
+                                                    alterType, SET DEFAULT nextval('<prefix>"<seq>"') *)
 
 (* the identifier chain a reference is written as under qualifier [q] *)
 Definition ref_chain (q : option bytes) (r : ref) : list bytes :=
@@ -56,7 +61,13 @@ Definition ref_chain (q : option bytes) (r : ref) : list bytes :=
   | RPrefixedCol ns t c => qual_prefix q ns ++ [t; c]
   | RBare n => [n]
   | RNew n => [n]
+  | RRaw n => [n]
+  | RLit ns n => qual_prefix q ns ++ [n]
   end.
+(* written inside a string literal (the harness reads these out of the literals of the statement) *)
+Definition in_literal (r : ref) : bool := match r with RLit _ _ => true | _ => false end.
+(* written as a quoted identifier chain (what the tokenizer observes as a chain) *)
+Definition quoted_chain (r : ref) : bool := match r with RLit _ _ | RRaw _ => false | _ => true end.
 
 Record stmt := mkStmt { s_rev : bool; s_head : bytes; s_refs : list ref }.
 
@@ -74,9 +85,11 @@ Inductive sub :=
 | AddForeignKey (f : fk) | DropForeignKey (f : fk)
 | AddCheck (named : bool) | DropCheck | ModifyCheck
 | ModifyColumn (to_name : bytes) (from_enum to_enum : option (option bytes * bytes))
-               (ty to_serial other comment : bool)
-    (* ty = ChangeType, other = ChangeNull / ChangeDefault, comment = ChangeComment;
-       to_serial: the new type is a SerialType (the old one is not) *)
+               (from_ser to_ser : option bytes) (ty other comment : bool)
+    (* ty = ChangeType, other = ChangeNull / ChangeDefault / ChangeAttr (identity), comment = ChangeComment;
+       from_ser / to_ser (round 5): the old / new type is a postgres.SerialType, [Some n]: n = its
+       SequenceName ([] when not set: a type written by hand; an INSPECTED serial column carries
+       the name of the sequence that owns its default, e.g. posts_id_seq) *)
 | ModifyIndex (from to : idx) (parts comment : bool)
 | ModifyForeignKey (from to : fk)
 | AddPrimaryKey | DropPrimaryKey | ModifyPrimaryKey
@@ -179,21 +192,44 @@ Definition skip_auto (pg : bool) (subs : list sub) : list sub :=
     | _ => true
     end) subs.
 
+Definition us : bytes := [95].                      (* "_" *)
+Definition seq_suffix : bytes := [95;115;101;113].  (* "_seq" *)
+Definition seq_name (t c : bytes) : bytes := t ++ us ++ c ++ seq_suffix.
+(* sql/postgres/inspect_oss.go SerialType.sequence(t, c):
+   if s.SequenceName != "" { return s.SequenceName }; return <table>_<column>_seq *)
+Definition SerialType_sequence (sn t c : bytes) : bytes :=
+  match sn with [] => seq_name t c | _ => sn end.
+
+(* alterType (sql/postgres/migrate_oss.go), references of the ALTER COLUMN clause(s) of a type change
+   of column [c] of table [o] towards (enum [te], serial [ts]) from serial [fs]:
+     fromHas && !toHas : DROP DEFAULT [, ALTER COLUMN c TYPE FormatType(To)]      -- FormatType of an enum type
+                                                                                     is its bare name: RRaw
+     !fromHas && toHas : SET DEFAULT nextval('<schemaPrefix(t.Schema)>%q')        -- in a literal
+     fromHas && toHas  : TYPE <integer type>                                       -- none
+     default           : TYPE enumIdent(To) | FormatType(To) *)
+Definition alter_type_refs (o : obj) (c : bytes) (te : option (option bytes * bytes))
+                           (fs ts : option bytes) : list ref :=
+  match fs, ts with
+  | Some _, None => match te with Some (_, n) => [RRaw n] | None => [] end
+  | None, Some sn => [RLit (o_schema o) (SerialType_sequence sn (o_name o) c)]
+  | Some _, Some _ => []
+  | None, None => match te with Some (ns, n) => [RType ns n] | None => [] end
+  end.
+
 (* references an ALTER TABLE clause writes, and those of its reverse clause *)
-Definition alter_fwd (pg : bool) (s : sub) : list ref :=
+Definition alter_fwd (pg : bool) (o : obj) (s : sub) : list ref :=
   match s with
   | AddColumn c => col_refs pg c
   | AddForeignKey f => fk_refs f
-  | ModifyColumn _ _ te ty ser _ _ =>          (* alterType: TYPE enumIdent(To) *)
-      if pg && ty && negb ser then match te with Some (ns, n) => [RType ns n] | None => [] end else []
+  | ModifyColumn c _ te fs ts ty _ _ => if pg && ty then alter_type_refs o c te fs ts else []
   | _ => []
   end.
-Definition alter_bwd (pg : bool) (s : sub) : list ref :=
+Definition alter_bwd (pg : bool) (o : obj) (s : sub) : list ref :=
   match s with
   | DropColumn c => col_refs pg c
   | DropForeignKey f => fk_refs f
-  | ModifyColumn _ fe _ ty ser _ _ =>          (* reverse ModifyColumn{From: To, To: From}: TYPE enumIdent(From) *)
-      if pg && ty && negb ser then match fe with Some (ns, n) => [RType ns n] | None => [] end else []
+  | ModifyColumn c fe _ fs ts ty _ _ =>       (* reverse ModifyColumn{From: To, To: From} *)
+      if pg && ty then alter_type_refs o c fe ts fs else []
   | _ => []
   end.
 (* an unnamed CHECK; mysql: an added table attribute (the AddAttr arm of alterTable clears [reversible],
@@ -206,13 +242,13 @@ Definition dropConst (s : sub) : bool :=
   match s with DropIndex _ | DropForeignKey _ | DropCheck | DropPrimaryKey => true | _ => false end.
 Definition pg_sorted (l : list sub) : list sub := filter dropConst l ++ filter (fun s => negb (dropConst s)) l.
 
-Definition alter_stmts (pg : bool) (head : ref) (l : list sub) : list stmt :=
+Definition alter_stmts (pg : bool) (o : obj) (head : ref) (l : list sub) : list stmt :=
   match l with
   | [] => []
   | _ =>
-      cmd h_alter_table (head :: flat_map (alter_fwd pg) l) ::
+      cmd h_alter_table (head :: flat_map (alter_fwd pg o) l) ::
       (if existsb irreversible l then []
-       else [mkStmt true h_alter_table (head :: flat_map (alter_bwd pg) (rev l))])
+       else [mkStmt true h_alter_table (head :: flat_map (alter_bwd pg o) (rev l))])
   end.
 
 (* mysql modifyTable: two ALTER TABLE SchemaResource(t.Schema, name) statements: first the drops
@@ -233,7 +269,7 @@ Definition mysql_group1 (s : sub) : sub :=
 Definition mysql_modify_table (t : tab) (subs : list sub) : list stmt :=
   let head := RSchemaRes (o_schema (t_obj t)) (o_name (t_obj t)) in
   let l := skip_auto false subs in
-  alter_stmts false head (flat_map mysql_group0 l) ++ alter_stmts false head (map mysql_group1 l).
+  alter_stmts false (t_obj t) head (flat_map mysql_group0 l) ++ alter_stmts false (t_obj t) head (map mysql_group1 l).
 
 (* postgres modifyTable: what each sub-change appends to the [alter] list *)
 Definition pg_alter_items (s : sub) : list sub :=
@@ -246,22 +282,31 @@ Definition pg_alter_items (s : sub) : list sub :=
       if parts then (if i_uconst from then [DropIndex from] else []) ++ (if i_uconst to then [AddIndex to] else [])
       else []
   | ModifyForeignKey from to => [DropForeignKey from; AddForeignKey to]
-  | ModifyColumn _ _ _ ty _ other _ => if ty || other then [s] else []
+  | ModifyColumn _ _ _ _ _ ty other _ => if ty || other then [s] else []
   | _ => []
   end.
 
-Definition us : bytes := [95].                      (* "_" *)
-Definition seq_suffix : bytes := [95;115;101;113].  (* "_seq" *)
-(* SerialType.sequence: <table>_<column>_seq *)
-Definition seq_name (t c : bytes) : bytes := t ++ us ++ c ++ seq_suffix.
 
-(* alterType, "sequence was added": changeGroup.before = CREATE SEQUENCE IF NOT EXISTS
-   <prefix><seq> OWNED BY <prefix><t>.<c> / reverse DROP SEQUENCE IF EXISTS <prefix><seq> *)
-Definition pg_sequence_stmts (o : obj) (s : sub) : list stmt :=
+(* alterType, createDropSeq(st): seq = schemaPrefix(t.Schema) + %q of st.sequence(t, c.To);
+     create = CREATE SEQUENCE IF NOT EXISTS <seq> OWNED BY <prefix>%q.%q (t.Name, c.To.Name)
+     drop   = DROP SEQUENCE IF EXISTS <seq>
+   "sequence was added"   (int -> serial): changeGroup.before += {Cmd: create, Reverse: drop}
+   "sequence was dropped" (serial -> int): changeGroup.after  += {Cmd: drop, Reverse: create}
+   (the reverse ALTER TABLE is built with a throw-away changeGroup: its before / after are lost) *)
+Definition seq_create_refs (o : obj) (sn c : bytes) : list ref :=
+  [RPrefixed (o_schema o) (SerialType_sequence sn (o_name o) c); RPrefixedCol (o_schema o) (o_name o) c].
+Definition seq_drop_refs (o : obj) (sn c : bytes) : list ref :=
+  [RPrefixed (o_schema o) (SerialType_sequence sn (o_name o) c)].
+Definition pg_sequence_before (o : obj) (s : sub) : list stmt :=
   match s with
-  | ModifyColumn c _ _ true true _ _ =>
-      [cmd h_create_sequence [RPrefixed (o_schema o) (seq_name (o_name o) c); RPrefixedCol (o_schema o) (o_name o) c];
-       mkStmt true h_drop_sequence [RPrefixed (o_schema o) (seq_name (o_name o) c)]]
+  | ModifyColumn c _ _ None (Some sn) true _ _ =>
+      [cmd h_create_sequence (seq_create_refs o sn c); mkStmt true h_drop_sequence (seq_drop_refs o sn c)]
+  | _ => []
+  end.
+Definition pg_sequence_after (o : obj) (s : sub) : list stmt :=
+  match s with
+  | ModifyColumn c _ _ (Some sn) None true _ _ =>
+      [cmd h_drop_sequence (seq_drop_refs o sn c); mkStmt true h_create_sequence (seq_create_refs o sn c)]
   | _ => []
   end.
 
@@ -275,8 +320,9 @@ Definition pg_modify_table (t : tab) (subs : list sub) : list stmt :=
       | ModifyIndex from _ true _ => if i_uconst from then [] else pg_drop_index o from
       | _ => []
       end) l
-  ++ flat_map (pg_sequence_stmts o) alter
-  ++ alter_stmts true (RTable o) alter
+  ++ flat_map (pg_sequence_before o) alter
+  ++ alter_stmts true o (RTable o) alter
+  ++ flat_map (pg_sequence_after o) alter
   ++ flat_map (fun s =>
       match s with
       | AddIndex i => if i_uconst i then [] else pg_add_index o i
@@ -289,7 +335,7 @@ Definition pg_modify_table (t : tab) (subs : list sub) : list stmt :=
        | AddIndex i => if i_comment i then pg_index_comment o i else []
        | ModifyIndex _ to _ true => pg_index_comment o to
        | AddColumn c => if c_comment c then pg_column_comment o c else []
-       | ModifyColumn c _ _ _ _ _ true => both h_comment_on [RTableRes o c]
+       | ModifyColumn c _ _ _ _ _ _ true => both h_comment_on [RTableRes o c]
        | RenameColumn => both h_alter_table [RTable o]
        | RenameIndex from to =>
            [cmd h_alter_index [RSchemaRes (o_schema o) from]; mkStmt true h_alter_index [RSchemaRes (o_schema o) to]]
@@ -320,3 +366,12 @@ Definition stmt_chains (q : option bytes) (s : stmt) : bool * bytes * list (list
   (s_rev s, s_head s, map (ref_chain q) (s_refs s)).
 Definition plan_chains (pg : bool) (q : option bytes) (cs : list change) :=
   map (stmt_chains q) (plan_skel pg cs).
+
+(* round 5, the observable of stages [skel] / [insp]: the chains written as identifiers and the
+   chains written inside string literals (nextval('...')) are observed separately *)
+Definition stmt_obs (q : option bytes) (s : stmt) : bool * bytes * list (list bytes) * list (list bytes) :=
+  (s_rev s, s_head s,
+   map (ref_chain q) (filter quoted_chain (s_refs s)),
+   map (ref_chain q) (filter in_literal (s_refs s))).
+Definition plan_obs (pg : bool) (q : option bytes) (cs : list change) :=
+  map (stmt_obs q) (plan_skel pg cs).
